@@ -35,6 +35,9 @@ func newDecls() *Decls {
 	d.add("nil-iface", "(define-fun nil-iface () Iface (mk-iface 0 0))")
 	d.add("nil-slice", "(define-fun nil-slice () Slice (mk-slice 0 0 0 0))")
 	d.add("refkind", "(declare-fun refkind (Int) Int)")
+	// sidx: index into a backing array = slice offset + index. An uninterpreted symbol (defined by an axiom) instead of
+	// "+" keeps quantifier patterns over slice elements free of interpreted arithmetic.
+	d.add("sidx", "(declare-fun sidx (Int Int) Int)\n(assert (forall ((o Int) (i Int)) (! (= (sidx o i) (+ o i)) :pattern ((sidx o i)))))")
 	// rootref: the allocated object (or global) an address belongs to; interior addresses of nested structs map to their root
 	d.add("rootref", "(declare-fun rootref (Int) Int)\n(assert (forall ((p Int)) (! (=> (> p (- 1000000)) (= (rootref p) p)) :pattern ((rootref p)))))")
 	return d
